@@ -74,6 +74,7 @@ def logCall (w : String) (g : GEv) : M Unit := modify fun s => { s with log := w
 def startDeps (sv : Nat) : M Unit := do
   pollCancel
   logCall s!"d{sv}" (.call false sv)
+  modify fun s => { s with issuedDeps := sv :: s.issuedDeps }
   requestStarted
 
 def finishDeps (sv : Nat) : M Unit :=
